@@ -112,6 +112,10 @@ class MemoFlow(Forward):
     def exit(self, kind, node, state):
         if kind in ("return", "end"):
             self.exits += 1
+            if not self.memos and not state:
+                self.rep.ob("G6", True, node, self.f, construct="normal exit of %s (%s)" % (self.f.name, kind),
+                            how="no memoised function reads the table: nothing to clear", key="%s/exit-%s" % (self.f.name, kind))
+                return
             ok = not state
             self.rep.ob("G6", ok, node, self.f, construct="normal exit of %s (%s)" % (self.f.name, kind),
                         how="all table-reading memos cleared on every path from a rebinding: %s" % sorted(self.memos),
